@@ -5,10 +5,12 @@
  "properties": {"C06": "contract", "C19": "safety"},
  "mode": "dfcc", "enforce": "mkarraytype/mkarraytype_contract",
  "kind": "proof",
+ "cbmc_flags": ["--z3"], "retry_no_simplify": false,
  "timeout": 120,
  "expects": ["postcondition", "assigns"],
  "assumes": ["PRE `len * base->size` does not wrap: the callers that pass a base (expr.c:664 string literals, element count of bytes that exist in memory; qbe.c:533 __func__, strlen+1 chars) satisfy it; decl.c:declarator passes base == NULL and computes the size itself behind the guard `length > ULLONG_MAX / base.type->size => error` (decl.c:701), which is this same condition",
-             "xmalloc does not fail (stubs/base.c)"]
+             "xmalloc does not fail (stubs/base.c)",
+             "back end: cbmc --z3 (SMT, Z3) instead of the default SAT solver: `len` reaches the code as a by-value parameter, so code and clause multiply different SSA symbols and the 64-bit multiplier equivalence does not finish in SAT (> 100 s with minisat and cadical); Z3 closes it by congruence in 3 s"]
 }
 */
 #include <limits.h>
